@@ -649,5 +649,5 @@ func TestC10(t *testing.T) {
 		}
 	}
 	st.Exhaustive["client"] = true
-	c10Sub.rapidCheck(t, pickTier(4000, 10000), c10Gen)
+	c10Sub.rapidCheck(t, pickTier(4000, 40000), c10Gen)
 }
